@@ -55,6 +55,29 @@ def floor_div(a, b):
     return q.numerator // q.denominator
 
 
+def float_quotient_below(start, stop, dt, q):
+    """ Does the quotient (stop - start) / dt, computed in float64 from the floats nearest to the three numbers, really fall below
+        the exact integer q?  Only then is a missing last point the recorded float-truncation defect; a point that is missing
+        although the float quotient reaches q has some other cause """
+    fq = (float(stop) - float(start)) / float(dt)
+    return int(fq) < q
+
+
+def float_truncation(spec, start, stop, dt, q, conv):
+    """ Is a last point that is missing although (stop - start)/dt is exactly the integer q the recorded float-truncation defect?
+        Only if the code still holds the stop that was asked for (spec['stop_resolved'], when the caller knows it: the same date /
+        the same number up to float rounding, e.g. start + dur computed in floats) and the float quotient — taken with the
+        requested or with the held stop — really falls below q.  A timeline whose held stop has moved, or that lacks a point
+        although the float quotient reaches q, is short for some other reason """
+    rs = spec.get('stop_resolved')
+    if rs is None or is_date(rs) != is_date(spec['stop']):
+        return float_quotient_below(start, stop, dt, q)
+    held = conv(rs)
+    if is_date(rs): same = to_date(rs) == to_date(spec['stop'])
+    else: same = abs(held - stop) <= F(1, 10**9) * max(1, abs(stop))
+    return same and (float_quotient_below(start, stop, dt, q) or float_quotient_below(start, held, dt, q))
+
+
 def round_half_even(q):
     fl = q.numerator // q.denominator
     r = q - fl
@@ -125,7 +148,7 @@ def check_timeline(spec, o, who='sim'):
             within_eps = (n == exp + 1 and start + (n - 1) * dt <= stop + TOL)
             if n != exp and not within_eps:
                 cause = 'other'
-                if q.denominator == 1 and n == exp - 1:
+                if q.denominator == 1 and n == exp - 1 and float_truncation(spec, start, stop, dt, q, num):
                     cause = 'float-quotient-below-integer'
                 fail('grid-length', cause, f'start={spec["start"]} stop={spec["stop"]} dt={spec["dt"]}: npts={n}, but floor((stop-start)/dt)+1={exp}'
                      + (f' (the quotient is exactly {q}: the last point {float(start+q*dt)} = stop is missing)' if cause != 'other' else ''))
@@ -159,7 +182,7 @@ def check_timeline(spec, o, who='sim'):
                 q = (ye - ys) / dt
                 exp = floor_div(ye - ys, dt) + 1
                 if n != exp:
-                    cause = 'float-quotient-below-integer' if (q.denominator == 1 and n == exp - 1) else 'other'
+                    cause = 'float-quotient-below-integer' if (q.denominator == 1 and n == exp - 1 and float_truncation(spec, ys, ye, dt, q, lambda x: date_to_year(to_date(x)))) else 'other'
                     fail('grid-length', cause, f'start={start} stop={stop} dt={spec["dt"]} year(s): npts={n}, but floor((stop-start)/dt)+1={exp}')
             for i in range(n):
                 if abs(o.yearvec[i] - (ys + i * dt)) > TOL:
